@@ -31,6 +31,11 @@ CLAIMED = {
     design='5 C05',
     note='Trusted: z3, object-dtype NumPy, harness/popspec.py densities, erf axioms (odd, bounded, monotone, derivative). sigma>0 assumed. Known finding: matrix layout misread by 3 methods (pinned by stable tests).',
     technique='symbolic execution of the real NumPy code on z3 reals + SMT validity queries; symbolic differentiation of the value term as gradient oracle'),
+ 'C06': dict(
+    text='Bounded symbolic verification of every sampler against the density its own log-likelihood evaluates: with the RNG stub each sample is a term in fresh standard normals; z3 decides affinity / log-affinity, mean, variance and the full log-density identity in a symbolic measurement, truncation support and law for the truncated model, point-mass behaviour of pooled / heterogeneous models, psi = transform(eta) laws for non-centred models, reported moments; error models, all population kinds, composed, covariate and reduced models; n_samples <= 2 (3), n_dim <= 2 (3).',
+    design='5 C06',
+    note='Trusted: RNG stub contract (NumPy/SciPy documentation: normal = loc + scale*eps, lognormal = exp(normal), truncnorm standardised bounds), closure of independent Gaussians under affine maps, E exp(a eps) = exp(a^2/2), z3, erf axioms. Replays draw 10^5 real samples. Known finding: ConstantAndMultiplicative sampler variance (pinned by a stable test).',
+    technique='symbolic execution with a named-stream RNG stub + change-of-variables / moment identities decided by SMT; statistical replay of counter-examples'),
 }
 
 NOT_APPLICABLE = {
